@@ -298,6 +298,10 @@ class CGen:
             self.emit(0, "template < typename T > struct Box { T v ; } ;")
             self.emit(0, "Box < Box < int > > bb ;")
             self.emit(0, "namespace ns { int nv ; }")
+        if self.lang != "JAVA":
+            # the goto-cleanup idiom: a `return;` that is NOT the last statement, and one that is
+            self.emit(0, "void vg ( int a ) { if ( a ) goto out ; g0 = 1 ; return ; out : g1 = 2 ; }")
+            self.emit(0, "void vh ( void ) { g0 = 2 ; return ; }")
         self.emit(0, "#if 1")
         self.emit(0, "void vf ( void ) { g0 = M1 ( g1 ) ; M2 ( g2 , g0 ) ; return ; }")
         self.emit(0, "#else")
